@@ -297,6 +297,8 @@ func c07(mode, in, out string) error {
 		return c07Record(in, out)
 	case "fontdict":
 		return runCases(in, out, c07FontDict)
+	case "rebind":
+		return runCases(in, out, c07Rebind)
 	}
 	return fmt.Errorf("c07: unknown mode %s", mode)
 }
